@@ -591,6 +591,9 @@ structure Cfg where
   kvCacheAddGuarded : Bool := false
   /-- the schema lookup of the create path (`getSchemaLocked`) consults the LRU cache (lindb's does not) -/
   schemaLockedUsesCache : Bool := false
+  /-- `metricIndexDatabase.Flush` returns at once when one of its steps fails (`if err := step(); err != nil
+  { return err }` around every step, lindb) — otherwise the remaining steps still run (e.g. `errors.Join`) -/
+  indexFlushAborts : Bool := true
   deriving DecidableEq, Repr
 
 structure Node where
@@ -846,6 +849,23 @@ def stepsBeforeCommit (sh : Shard) (j : Nat) : Nat :=
       else go (i + 1) fuel j
   go 0 5 j
 
+/-- `metricIndexDatabase.Flush` with ONE fault: `steps` = the steps in the order the source runs them
+(numbers of `Shard.flushStep`), `k` = the step whose kv family commit fails. A step that has nothing to
+write (`needFlush()` false) returns nil before it builds a flusher, so it cannot fail. The failing step
+changes nothing (its `immutable` table stays, see `kvFlushErrBranchCalls` / `invertedFlushErrBranchCalls`).
+`abort` = the control flow of Flush: the error is returned at once (lindb) — or the remaining steps
+still run. Returns the shard and whether Flush reports an error. -/
+def flushFaultGo (abort : Bool) (k : Nat) : List Nat → Shard → Shard × Bool
+  | [], sh => (sh, false)
+  | i :: rest, sh =>
+    if i = k ∧ shardCommits sh i = true then
+      (if abort then sh else (flushFaultGo abort k rest sh).1, true)
+    else flushFaultGo abort k rest (sh.flushStep i)
+
+def indexFlushFault (nd : Node) (abort : Bool) (steps : List Nat) (shard k : Nat) : Node × Bool :=
+  let r := flushFaultGo abort k steps (nd.shards shard)
+  (nd.setShard shard r.1, r.2)
+
 /-- `count` GenTagValueID calls for the new names `lo …` of tag key `tk` in a row (big-bucket region;
 the harness uses these names through this operation only) -/
 def genTagValueRange (c : Cfg) (nd : Node) (tk lo count : Nat) : Node × Nat :=
@@ -925,6 +945,22 @@ def step (c : Cfg) (nd : Node) : Op → Node × Option GenOut
 def run (c : Cfg) : Node → List Op → Node
   | nd, [] => nd
   | nd, op :: rest => run c (step c nd op).1 rest
+
+/-! ## Histories with faulted index flushes -/
+
+inductive FOp
+  | op (o : Op)                       -- any operation of the sequential history model (crashes, reopen, failed metadata flushes included)
+  | indexFlushFault (shard k : Nat)   -- one shard's real `Flush()` during which step `k` fails (k ≥ 4: no fault)
+  deriving Repr
+
+/-- `steps` / `abort`: order and control flow of `metricIndexDatabase.Flush` (regenerated facts, see IdAssignCfg) -/
+def fstep (c : Cfg) (steps : List Nat) (nd : Node) : FOp → Node
+  | .op o => (step c nd o).1
+  | .indexFlushFault sh k => (nd.indexFlushFault c.indexFlushAborts steps sh k).1
+
+def frun (c : Cfg) (steps : List Nat) : Node → List FOp → Node
+  | nd, [] => nd
+  | nd, op :: rest => frun c steps (fstep c steps nd op) rest
 
 /-! ## The memdb index worker (`indexDatabase.handle`): rows and flush requests from one channel -/
 
